@@ -722,6 +722,8 @@ def list_method(interp, st, recv, name, args, kwargs):
         st.heap.write(cls, 'len', recv.z, n + 1)
         st.emit('list_append', target=recv, value=zv, index=n)
         yield st, None
+    elif name == 'sort':
+        yield from _sorted_heap(interp, st, recv, kwargs, inplace=True)
     else:
         raise Unsupported(f'heap list method {name}')
 
@@ -776,6 +778,9 @@ def set_method(interp, st, recv, name, args, kwargs):
 
 def dict_method(interp, st, recv, name, args, kwargs):
     cls = recv.ty.cls
+    if name in getattr(cls, 'methods', {}):
+        yield from cls.methods[name](interp, st, recv, args, kwargs)
+        return
     if name == 'pop' and len(args) == 1:
         zk = to_ty(interp, st, args[0], cls.kt).z
         has = st.heap.read(cls, 'has', recv.z)
@@ -971,34 +976,39 @@ def ctor_model(cls, defaults=None, name=None):
     return Model(name or cls.name, fn)
 
 
-def _sorted_heap(interp, st, v, kwargs):
-    """sorted(xs, key=f) for a heap list: assumed contract (audited): the result is a
-    permutation of xs ordered by key (stability is not used)."""
+def _sorted_heap(interp, st, v, kwargs, inplace=False):
+    """sorted(xs, key=f) / xs.sort(key=f, reverse=r) for a heap list: assumed contract (audited):
+    the result is a permutation of xs ordered by key (stability is not used)."""
     cls = v.ty.cls
-    if 'key' not in kwargs or kwargs.get('reverse'):
+    if 'key' not in kwargs or kwargs.get('reverse') not in (None, False, True):
         raise Unsupported('sorted(heap list) form')
+    reverse = bool(kwargs.get('reverse'))
     n = st.heap.read(cls, 'len', v.z)
     src = st.heap.read(cls, 'arr', v.z)
-    r = ops.new_heap(st, cls)
+    r = v if inplace else ops.new_heap(st, cls)
     out = z3.Const(sym.fresh_name('sorted'), z3.ArraySort(z3.IntSort(), cls.elem.sort()))
     perm = z3.Function(sym.fresh_name('perm'), z3.IntSort(), z3.IntSort())
     pinv = z3.Function(sym.fresh_name('pinv'), z3.IntSort(), z3.IntSort())
     i, j = z3.Ints(f'{sym.fresh_name("si")} {sym.fresh_name("sj")}')
-    # key term for a symbolic element
-    e = sym.fresh(cls.elem, 'se')
+    # key term for a generic element of the list
+    i0 = z3.Int(sym.fresh_name('ski'))
+    e = SV(cls.elem, z3.Select(src, i0))
     sub = st.copy()
+    sub.assume(z3.And(0 <= i0, i0 < n))
+    npc0 = len(sub.pc)
     res = list(interp.call(sub, kwargs['key'], [e], {}))
     if len(res) != 1 or isinstance(res[0][1], Raised):
         raise Unsupported('sorted key is not a pure total function')
     kt = res[0][1]
-    if res[0][0].pc[len(st.pc):]:
+    if res[0][0].pc[npc0:]:
         raise Unsupported('sorted key forks')
     keyf = lambda z: z3.substitute(lift(kt).z, (e.z, z))
     st.assume(z3.ForAll([i], z3.Implies(z3.And(0 <= i, i < n), z3.And(
         0 <= perm(i), perm(i) < n, pinv(perm(i)) == i, z3.Select(out, i) == z3.Select(src, perm(i))))))
     st.assume(z3.ForAll([j], z3.Implies(z3.And(0 <= j, j < n), z3.And(0 <= pinv(j), pinv(j) < n, perm(pinv(j)) == j))))
-    st.assume(z3.ForAll([i, j], z3.Implies(z3.And(0 <= i, i <= j, j < n), keyf(z3.Select(out, i)) <= keyf(z3.Select(out, j)))))
+    le = (lambda a, b: b <= a) if reverse else (lambda a, b: a <= b)
+    st.assume(z3.ForAll([i, j], z3.Implies(z3.And(0 <= i, i <= j, j < n), le(keyf(z3.Select(out, i)), keyf(z3.Select(out, j))))))
     st.heap.write(cls, 'arr', r.z, out)
     st.heap.write(cls, 'len', r.z, n)
-    st.emit('sorted', source=v, result=r, perm=perm, pinv=pinv, keyf=keyf)
-    yield st, r
+    st.emit('sorted', source=v, result=r, perm=perm, pinv=pinv, keyf=keyf, reverse=reverse, src_arr=src, n=n)
+    yield st, (None if inplace else r)
